@@ -30,20 +30,20 @@ type (
 		s     int
 		bySub bool
 	}
-	aInt     struct{ v int64 }
-	aBool    struct{ b bool }
-	aNil     struct{}
-	aErr     struct{}
-	aGlobal  struct{ name string }
-	aIdx     struct{ k int }
-	aSliceV  struct{} // the slice being sorted
-	aFn      struct {
+	aInt    struct{ v int64 }
+	aBool   struct{ b bool }
+	aNil    struct{}
+	aErr    struct{}
+	aGlobal struct{ name string }
+	aIdx    struct{ k int }
+	aSliceV struct{} // the slice being sorted
+	aFn     struct {
 		fn       *ssa.Function
 		bindings []aval
 	}
-	aTuple   []aval
-	aCell    struct{ v *aval }
-	aFieldP  struct {
+	aTuple  []aval
+	aCell   struct{ v *aval }
+	aFieldP struct {
 		base  aval
 		field string
 	}
